@@ -205,21 +205,11 @@ Definition gen_site_imported (r : string * string * string * string * string * s
       end
   end.
 Definition gen_site_ok r := gen_site_typed r && gen_site_imported r.
-(* the one call known to be ill-typed (finding: list_request extends MessageOptions, set on MethodOptions) *)
-Definition is_listrequest_site (r : string * string * string * string * string * string * list string * bool) : bool :=
-  match r with (_, fn, _, x, _, _, _, _) =>
-    String.eqb fn "conversionVisitor.visitServiceMethodNode" && String.eqb x "list_j5pb.E_ListRequest" end.
-
-Lemma setext_typed_partial :
-  forallb gen_site_ok (filter (fun r => negb (is_listrequest_site r)) SetExtGen.sites) = true.
+(* every SetExtension call passes the extension's declared Go type to the options message the extension extends,
+   in a branch that imports the extension's file.  (Before fix 985f10a the list_request call in
+   visitServiceMethodNode was the one ill-typed site: it is gone, a list request is reported as an error.) *)
+Lemma setext_typed : forallb gen_site_ok SetExtGen.sites = true.
 Proof. vm_compute. reflexivity. Qed.
-Lemma setext_typed_refuted :
-  exists r, In r SetExtGen.sites /\ is_listrequest_site r = true /\ gen_site_typed r = false.
-Proof.
-  exists (nth (length SetExtGen.sites - 1) SetExtGen.sites
-              ("", "", "", "", "", "", [], false)).
-  vm_compute. split; [|split; reflexivity]. repeat (first [left; reflexivity | right]).
-Qed.
 (* the enum-value import really is ensured by the caller (twice: info fields and option info) *)
 Lemma enum_value_import_in_caller :
   2 <= length (filter (fun r => match r with (_, fn, p) =>
@@ -245,7 +235,7 @@ Definition has_any (p : prop) : bool :=
   | _ => false
   end.
 Definition accepted_language (p : prop) : bool :=
-  in_language p && negb (uses_float_rules p) && negb (uses_informal_key_listrules p).
+  in_language p && negb (uses_float_rules p).
 
 (* everything that is proved about one property, evaluated once over the whole space *)
 Definition iso_spec (p : prop) : bool :=
@@ -317,11 +307,13 @@ Proof. vm_compute. reflexivity. Qed.
 (* the documented language at full strength is NOT accepted: float rules, and list rules on an
    informal key, are rejected with a conversion error *)
 Definition float_rules_witness := mkProp false (Plain (TFloat F32 true false)) false false.
-Definition informal_key_witness := mkProp false (Plain (TKey ENone false KInformal true)) false false.
 Lemma language_refuted :
-  in_language float_rules_witness = true /\ o_verdict (compile_iso float_rules_witness) = VConvErr
-  /\ in_language informal_key_witness = true /\ o_verdict (compile_iso informal_key_witness) = VConvErr.
+  in_language float_rules_witness = true /\ o_verdict (compile_iso float_rules_witness) = VConvErr.
 Proof. vm_compute. repeat split. Qed.
+(* list rules on an informal key are accepted since fix dc2b724 (they were the second gap) *)
+Lemma informal_key_listrules_accepted :
+  o_verdict (compile_iso (mkProp false (Plain (TKey ENone false KInformal true)) false false)) = VOk.
+Proof. vm_compute. reflexivity. Qed.
 
 (* Any is the one field type that relies on the enclosing object's import *)
 Lemma any_needs_context : field_cover (mkProp false (Plain (TAny false)) false false) = false.
@@ -333,11 +325,10 @@ Definition full_language_statement : Prop :=
 Lemma full_language_refuted : ~ full_language_statement.
 Proof.
   intros H. pose proof (H float_rules_witness) as Hf.
-  destruct language_refuted as [Hl [Hv _]]. rewrite (Hf Hl) in Hv. discriminate.
+  destruct language_refuted as [Hl Hv]. rewrite (Hf Hl) in Hv. discriminate.
 Qed.
 Lemma language_accepted_partial : forall p,
-  in_language p = true -> uses_float_rules p = false -> uses_informal_key_listrules p = false ->
-  o_verdict (compile_iso p) = VOk.
+  in_language p = true -> uses_float_rules p = false -> o_verdict (compile_iso p) = VOk.
 Proof.
-  intros p H1 H2 H3. apply iso_language_accepted. unfold accepted_language. rewrite H1, H2, H3. reflexivity.
+  intros p H1 H2. apply iso_language_accepted. unfold accepted_language. rewrite H1, H2. reflexivity.
 Qed.
